@@ -395,6 +395,8 @@ def section8():
         'C11g': 'the balance is also read through the DEFAULTED queries after a space-frame and after a body-frame statics call, each with its own wrench',
         'C12g': 'the two-argument form changeFrame(new, old_frame) on an object whose recorded frame already equals the new one',
         'C16g': 'a direction-dependent distance callback (climbing costs three times descending)',
+        'C04h': 'the nested [position, rotation] pair with the roll-pitch-yaw flag (positional and keyword) and with both entries given as arrays',
+        'C12h': 'the point of application given as transform object, 3-array, 3x1 column and 6x1 pose column, directly and through fsr.makeWrench',
         'C18g': 'whole-number screws typed as integers for chainJacobian',
         'C19g': 'the UDP history closes and re-opens a used endpoint and uses it again',
         'C20g': 'LaTeX cells are parsed back and compared with the rounded elements; scripted matrices at nd = 0, 1, 3 where rounding and truncation differ, and specials at nd = 0',
